@@ -196,9 +196,9 @@ func c56MakeProfile(h *H, m *index.VerifC56Map, big bool) c56Profile {
 }
 
 func streamC56(h *H) {
-	n := h.N(70, 1200)
+	n := h.N(70, 800)
 	for i := 0; i < n; i++ {
-		c56Case(h, i == 0 && h.Shard < 4)
+		c56Case(h, i == 0 && h.Shard < 2)
 	}
 }
 
